@@ -284,6 +284,10 @@ class Interp(object):
         if isinstance(obj, (ArrRef, Quantity)):
             npm.setitem(st, obj, key, val)
             return
+        if isinstance(obj, ObjRef) and st.heap[obj.addr].cls == '<table>':
+            from .extmodels import table_setitem
+            table_setitem(self, st, obj, key, val)
+            return
         if isinstance(obj, PureArr):
             raise Unsupported("store into an unnamed temporary array")
         raise Unsupported("subscript store on %r" % (obj,))
@@ -916,6 +920,11 @@ class Interp(object):
             if isinstance(key, ListRef):
                 key = npm.from_list(st, st.heap[key.addr].items)
             return npm.getitem(st, obj, key)
+        if isinstance(obj, ObjRef) and st.heap[obj.addr].cls == '<table>':
+            from .extmodels import table_getitem
+            return table_getitem(self, st, obj, key)
+        if isinstance(obj, ObjRef) and st.heap[obj.addr].cls == '<fnmap>':
+            return st.heap[obj.addr].attrs['fn'](key)       # a mapping given by a spec function of the key
         if isinstance(obj, ObjRef) and st.heap[obj.addr].cls.startswith('<') and '[]' in st.heap[obj.addr].attrs:
             table = st.heap[obj.addr].attrs['[]']
             k = self._dkey(key)
